@@ -15,7 +15,12 @@ func init() {
 		Explanation: "Decides forwarder conformance (ORIGIN terms with bounded inlining of trivial accessors): every method of Prefix and Resource makes exactly one effectful module call whose arguments are the documented desugaring — pattern = receiver's pattern ++ argument (Resource: receiver's pattern), handler / method list / strict / params forwarded unchanged, middleware list = argument ++ receiver's list, the verb helper X of Router, Prefix and Resource passes exactly the net/http constant upper(X) (Any passes none), the receiver is returned; Prefix.Clean cleans the tree with the receiver's pattern, Resource.Clean removes the receiver's pattern with no method list; Router.Prefix/Resource build the facade with a cloned middleware list. " +
 			"Not decided: the prefix semantics of node.clean inside the tree.",
 		Assumptions: commonAssumptions,
-		Run:         func(c *Ctx) { ruleForwarders(c, "R1") },
+		Run: func(c *Ctx) {
+			ruleForwarders(c, "R1")
+			ruleIndexRebuilt(c, "R2a")
+			ruleIndexRebuildComplete(c, "R2b")
+			ruleRemoversUpdateTreeSummary(c, "R3")
+		},
 	})
 }
 
